@@ -264,7 +264,11 @@ pub broadcast proof fn lemma_rd32_w32_2(le: bool, n: nat, a: Seq<u8>, b: Seq<u8>
     requires n < 0x1_0000_0000
     ensures #[trigger] rd32(le, (w32(le, n) + a) + b) == n
 { assert((w32(le, n) + a) + b =~= w32(le, n) + (a + b)); lemma_rd32_w32(le, n, a + b); }
-pub broadcast group group_bin { lemma_rd32_w32, lemma_rd32_be32, lemma_rd32_le32, lemma_rd32_w32_2 }
+/// the code tables are inverse on the 14 wire types
+pub broadcast proof fn lemma_ttype_of_u8(t: TType)
+    ensures is_ttype_code(#[trigger] ttype_u8(t)), ttype_of(ttype_u8(t)) == t
+{ }
+pub broadcast group group_bin { lemma_ttype_of_u8, lemma_rd32_w32, lemma_rd32_be32, lemma_rd32_le32, lemma_rd32_w32_2 }
 } // verus!
 }
 pub use binspec::*;
